@@ -21,6 +21,9 @@ fn main() {
         "C02" => wire_eng::c02(&args),
         "C03" => wire_eng::c03(&args),
         "C09" => fbrv::engines::conc_eng::c09(&args),
+        "O-debug" => { fbrv::engines::overlay_eng::debug(); std::process::exit(0) }
+        "C10" => fbrv::engines::overlay_eng::run(&args, "C10"),
+        "C11" => fbrv::engines::overlay_eng::run(&args, "C11"),
         "C12" => wire_eng::c12(&args),
         "C04" => transport_eng::run(&args, "C04"),
         "C05" => ptfs_eng::c05(&args),
